@@ -33,6 +33,8 @@ LossVerdict(e) ==
 LossLine(e) == IF e.out_nofg = "ok" /\ ~SameContent(e, e.lines_in, e.lines_nofg) THEN FirstBadLine(e, e.lines_in, e.lines_nofg)
                ELSE IF e.out_fg = "ok" THEN FirstBadLine(e, e.lines_in, e.lines_fg) ELSE 0
 
+LineCount(sq, x) == Cardinality({i \in 1..Len(sq) : sq[i] = x})
+BagEq(a, b) == Len(a) = Len(b) /\ \A i \in 1..Len(a) : LineCount(a, a[i]) = LineCount(b, a[i])
 \* C08
 GroupVerdict(e) ==
   LET s == S(e) rows == Rows(e) IN
@@ -43,6 +45,13 @@ GroupVerdict(e) ==
   ELSE IF e.out_nofg = "ok" /\ e.lines_fg # e.lines_nofg THEN "encoding_differs_with_and_without_group_finding"
   \* the same text assigned to a message created without a name (Message().value = text) is grouped alike
   ELSE IF "tree_val" \in DOMAIN e /\ e.out_val = "ok" /\ e.tree_val # e.tree THEN "grouping_differs_when_the_text_is_assigned_to_an_empty_message"
+  \* ... and parsed under STRICT (when STRICT accepts it) it gives the same tree and the same encoding
+  ELSE IF "tree_strict" \in DOMAIN e /\ e.out_strict = "ok" /\ Unambiguous(s, e.input) /\ e.tree_strict # e.tree
+       THEN "grouping_differs_under_strict"
+  \* (the ORDER of the lines may differ: STRICT encodes a group's members in structure order - recorded finding
+  \*  C05-strict-structure-order; every line is there exactly as often as in the input)
+  ELSE IF "tree_strict" \in DOMAIN e /\ e.out_strict = "ok" /\ ~BagEq(e.lines_strict, e.lines_fg)
+       THEN "strict_tree_encodes_other_segments_than_the_input"
   ELSE IF Unambiguous(s, e.input) /\ rows # Prescribed(s, e.input) THEN "tree_is_not_the_prescribed_one"
   \* when the prescribed forest satisfies every cardinality of the structure, the validator must find no structural error
   ELSE IF Unambiguous(s, e.input) /\ ~e.valid
